@@ -534,6 +534,21 @@ impl<Block: ChainBlock> BlockTree<Block> {
     {
         if n <= 0 || n > cs.len() { Seq::empty() } else { Self::preorder_children(cs, n - 1) + cs[n - 1].preorder() }
     }
+    // the path to a block is shorter than the tree is deep
+    proof fn lemma_idx_path_len_le_depth(&self, h: BlockHash)
+        ensures self.idx_path_to(h).len() < self.sdepth(),
+        decreases self,
+    {
+        let n = self.children@.len() as int;
+        Self::lemma_max_child_depth_mono(self.children@, 0, n);
+        if self.root.shash() != h {
+            let i = Self::first_child_with(self.children@, h, n);
+            if 0 <= i < n {
+                self.children@[i].lemma_idx_path_len_le_depth(h);
+                Self::lemma_max_child_depth_mono(self.children@, n, n);
+            }
+        }
+    }
     proof fn lemma_first_child_with(cs: Seq<BlockTree<Block>>, h: BlockHash, n: int)
         requires 0 <= n <= cs.len(),
         ensures
